@@ -8,6 +8,7 @@ import (
 	"runtime/pprof"
 	"sort"
 	"strings"
+	"syscall"
 	"time"
 
 	"verif/checks"
@@ -103,7 +104,15 @@ func parent(c *checks.Check, r *ev.Rec, id, tier string) int {
 			cmd.Stdout = &eb
 			cmd.Env = append(os.Environ(), fmt.Sprintf("VERIF_SHARD=%d", k), fmt.Sprintf("VERIF_NSHARDS=%d", n),
 				fmt.Sprintf("VERIF_SHARD_OUT=%s/part-%d.json", dir, k), fmt.Sprintf("VERIF_START_UNIX=%d", time.Now().Unix()), "GOMAXPROCS=2", "GOGC=200")
-			err := cmd.Run()
+			// watchdog: a shard that is still running a minute after the internal deadline is hung (deadlock in the code
+			// under test or in the harness); it is killed with SIGQUIT so that its goroutine dump lands in stderr
+			if err := cmd.Start(); err != nil {
+				ch <- res{k, err, ""}
+				return
+			}
+			timer := time.AfterFunc(time.Until(r.Deadline)+90*time.Second, func() { _ = cmd.Process.Signal(syscall.SIGQUIT) })
+			err := cmd.Wait()
+			timer.Stop()
 			ch <- res{k, err, eb.String()}
 		}(k)
 	}
@@ -115,7 +124,9 @@ func parent(c *checks.Check, r *ev.Rec, id, tier string) int {
 			if len(tail) > 3000 {
 				tail = tail[:1500] + "\n...\n" + tail[len(tail)-1500:]
 			}
-			if strings.Contains(x.stderr, "fatal error:") || strings.Contains(x.stderr, "panic:") {
+			if strings.Contains(x.stderr, "SIGQUIT") {
+				r.Violation("process-hang", fmt.Sprintf("shard %d was still running 90s after the deadline (deadlock?): %s", x.k, firstLine(x.stderr, "checks.", "karpenter/pkg")), map[string]any{"stderr": tail})
+			} else if strings.Contains(x.stderr, "fatal error:") || strings.Contains(x.stderr, "panic:") {
 				r.Violation("process-crash", fmt.Sprintf("shard %d crashed: %s", x.k, firstLine(x.stderr, "fatal error:", "panic:")), map[string]any{"stderr": tail})
 			} else {
 				fmt.Fprintf(os.Stderr, "HARNESS-ERROR: shard %d failed: %v\n%s\n", x.k, x.err, tail)
